@@ -117,7 +117,11 @@ type verifC06API struct {
 	trace    []string
 	budget   int  // more collections requests than this = the scan is not terminating
 	runaway  bool
+	cutLen   int         // fail kind "c": the failing response is cut to this many bytes
+	bodyLen  map[int]int // length of the complete body of request k
 }
+
+var verifC06LastAPI *verifC06API
 
 func (api *verifC06API) apply(op verifC06Op) {
 	switch op.kind {
@@ -275,12 +279,15 @@ func (api *verifC06API) RoundTrip(req *http.Request) (*http.Response, error) {
 	}
 	order := strings.Replace(form.Get("order"), " ", "", -1)
 	api.trace = append(api.trace, fmt.Sprintf("q:%s:%s:%s:%s:%s", form.Get("count"), form.Get("limit"), order, fstr, flags))
+	cut := false
 	if k == api.failAt {
 		switch api.failKind {
 		case "n":
 			return nil, errors.New("verif: injected transport error")
 		case "j":
 			return verifC06Resp(req, 200, `{"items":[{"uuid":"zzzzz-4zz18-0000`), nil
+		case "e", "b", "h", "l", "c":
+			cut = true // 200 with the real body cut short: at byte 0, 1, half, last, or api.cutLen
 		default:
 			return verifC06Resp(req, 500, `{"errors":["verif: injected failure"]}`), nil
 		}
@@ -344,7 +351,85 @@ func (api *verifC06API) RoundTrip(req *http.Request) (*http.Response, error) {
 		out.ItemsAvailable = &avail
 	}
 	buf, _ := json.Marshal(out)
+	if api.bodyLen == nil {
+		api.bodyLen = map[int]int{}
+	}
+	api.bodyLen[k] = len(buf)
+	if cut {
+		n := 0
+		switch api.failKind {
+		case "b":
+			n = 1
+		case "h":
+			n = len(buf) / 2
+		case "l":
+			n = len(buf) - 1
+		case "c":
+			n = api.cutLen
+		}
+		if n >= len(buf) {
+			n = len(buf) - 1
+		}
+		return verifC06Resp(req, 200, string(buf[:n])), nil
+	}
 	return verifC06Resp(req, 200, string(buf)), nil
+}
+
+// verifC06PageCut: `pagecut <pageSize> <pop> <k>` — the k-th collections request of a scan over a static
+// table is answered with status 200 and its real body cut to n bytes, for every n from 0 to len-1.
+// Prints len=<len> ok=<n:complete|n:missing.<uuid>,…> listing the cuts after which the scan returned nil.
+func verifC06PageCut(f []string) string {
+	if len(f) != 4 {
+		return "bad-op"
+	}
+	k, err := strconv.Atoi(f[3])
+	if err != nil || k < 0 {
+		return "bad-op"
+	}
+	line := []string{"page", f[1], "0", f[2], "-", "-", "-"}
+	if r := verifC06Page(line); r == "bad-op" {
+		return "bad-op"
+	}
+	total, made := verifC06LastAPI.bodyLen[k]
+	if !made {
+		return "len=0 ok=-"
+	}
+	var want []string
+	if f[2] != "-" {
+		for _, p := range strings.Split(f[2], ",") {
+			want = append(want, strings.Split(p, ":")[0])
+		}
+	}
+	var ok []string
+	for n := 0; n < total; n++ {
+		line[5] = fmt.Sprintf("%dc%d", k, n)
+		r := verifC06Page(line)
+		i := strings.LastIndex(r, "=")
+		if i < 0 {
+			return "unexpected " + r
+		}
+		if r[i+1:] != "ok" {
+			continue
+		}
+		seen := map[string]bool{}
+		for _, e := range strings.Split(r[:i], "|") {
+			if strings.HasPrefix(e, "c:") {
+				seen[e[2:]] = true
+			}
+		}
+		verdict := "complete"
+		for _, u := range want {
+			if !seen[u] {
+				verdict = "missing." + u
+				break
+			}
+		}
+		ok = append(ok, fmt.Sprintf("%d:%s", n, verdict))
+	}
+	if len(ok) == 0 {
+		return fmt.Sprintf("len=%d ok=-", total)
+	}
+	return fmt.Sprintf("len=%d ok=%s", total, strings.Join(ok, ","))
 }
 
 var verifC06ErrCallback = errors.New("verif: callback error")
@@ -359,6 +444,7 @@ func verifC06Page(f []string) string {
 		return "bad-op"
 	}
 	api := &verifC06API{sched: map[int][]verifC06Op{}, cap: cp, failAt: -1}
+	verifC06LastAPI = api
 	if f[3] != "-" {
 		for _, p := range strings.Split(f[3], ",") {
 			ut := strings.Split(p, ":")
@@ -412,7 +498,13 @@ func verifC06Page(f []string) string {
 	}
 	if f[5] != "-" {
 		s := f[5]
-		if n := len(s); n > 0 && (s[n-1] == 'n' || s[n-1] == 'j') {
+		if i := strings.IndexByte(s, 'c'); i > 0 {
+			n, err := strconv.Atoi(s[i+1:])
+			if err != nil {
+				return "bad-op"
+			}
+			api.failKind, api.cutLen, s = "c", n, s[:i]
+		} else if n := len(s); n > 0 && strings.IndexByte("njebhl", s[n-1]) >= 0 {
 			api.failKind = s[n-1:]
 			s = s[:n-1]
 		}
@@ -616,6 +708,7 @@ type verifC06World struct {
 	gateHost string // gate mode: the index request of this host fails, under control of sched
 	badColl  int    // index of the collection whose manifest is malformed (-1: none)
 	pageFail int    // this collections request (0-based, null-check excluded) is answered with a 500 (-1: none)
+	pageFailEmpty bool // … or with status 200 and a zero-length body
 	collReqs int
 	sched    *verifC06Sched
 	// commit requests seen after the failure (or, without a failure, after GetCurrentState began)
@@ -709,10 +802,12 @@ func (w *verifC06World) RoundTrip(req *http.Request) (*http.Response, error) {
 		w.failed = true
 		w.failStep = step
 		kind := w.failKind
-		if kind == "trunc" && req.Method == "PUT" {
+		if (kind == "trunc" || kind == "empty") && req.Method == "PUT" {
 			kind = "500" // a truncated body of a PUT response is not a failure
 		}
 		switch kind {
+		case "empty":
+			return verifC06Resp(req, code, ""), nil
 		case "net":
 			return nil, errors.New("verif: injected transport error")
 		case "trunc":
@@ -782,6 +877,9 @@ func (w *verifC06World) serve(req *http.Request) (int, string) {
 		k := w.collReqs
 		w.collReqs++
 		if k == w.pageFail {
+			if w.pageFailEmpty {
+				return 200, ""
+			}
 			return 500, `{"errors":["verif: injected failure"]}`
 		}
 		// all collections share one timestamp, so that every paging mode is exercised
@@ -989,6 +1087,12 @@ func verifC06GCS(f []string) string {
 		n, err := strconv.Atoi(s)
 		return n, err == nil && n >= 0
 	}
+	pageFailEmpty := false
+	if n := len(f[7]); n > 1 && f[7][n-1] == 'e' {
+		pageFailEmpty = true
+		f = append([]string{}, f...)
+		f[7] = f[7][:n-1]
+	}
 	var v [10]int
 	for i := 1; i <= 10; i++ {
 		n, ok := num(f[i])
@@ -1022,6 +1126,7 @@ func verifC06GCS(f []string) string {
 	}
 	w.mtx.Lock()
 	w.pageFail = pageFail
+	w.pageFailEmpty = pageFailEmpty
 	w.collReqs = 0
 	w.mtx.Unlock()
 	ctx, cancel := context.WithTimeout(context.Background(), 30*time.Second)
@@ -1072,6 +1177,8 @@ func verifC06Case(line, tmp string) (out string) {
 	switch f[0] {
 	case "page":
 		return verifC06Page(f)
+	case "pagecut":
+		return verifC06PageCut(f)
 	case "run":
 		return verifC06Run(f, tmp)
 	case "gcs":
